@@ -15,7 +15,7 @@ def gen_ili_file(rng):
     header = rng.choice(['ili\tstatus\tdefinition', 'ILI\tstatus\tdefinition', 'ili\tdefinition', 'ILI\tstatus', 'ili'])
     cols = header.lower().split('\t')
     lines = [header]
-    ids = rng.sample(['i%d' % k for k in range(1, 12)], rng.randint(1, 6))
+    ids = rng.sample(['i%d' % k for k in range(1, 9)], rng.randint(2, 7))
     expect_ = {}
     for i in ids:
         row = {'ili': i}
@@ -24,7 +24,7 @@ def gen_ili_file(rng):
         if 'definition' in cols:
             row['definition'] = rng.choice(['def of ' + i, '', 'x < y & "z"'])
         fields = [row.get(c, '') for c in cols]
-        if rng.random() < 0.2 and len(fields) > 1:
+        if rng.random() < 0.35 and len(fields) > 1:
             fields = fields[:-1]              # a short line: the last column is missing
             row.pop(cols[-1], None)
         lines.append('\t'.join(fields))
@@ -44,6 +44,12 @@ def run(rep, tier, build, replay=None):
     meta = []
     for _ in range(n):
         u = gendoc.gen_universe(rng, size=2, with_ext=False)[:2]
+        for _nm, r in u:
+            for lx in r['lexicons']:
+                for ss in lx['synsets']:
+                    # a synset with an existing ILI may carry an <ILIDefinition> of its own (legal, unusual)
+                    if ss['ili'] not in ('', 'in') and rng.random() < 0.5:
+                        ss['ili_definition'] = {'text': 'gloss from the lexicon for ' + ss['ili'], 'meta': None}
         files = [gen_ili_file(rng) for _ in range(rng.choice([1, 1, 2]))]
         ops = [['add', r] for _n, r in u] + [['ili', f] for f, _ in files]
         perms = list(itertools.permutations(range(len(ops))))
